@@ -603,13 +603,13 @@ def run_generated_code(ctx, build, recs, limit):
         p = os.path.join(work, "m%d.cellml" % i)
         shutil.copy(os.path.join(r["dir"], "flat.cellml"), p)
         paths.append(p)
-    lines = c03_models.run_pipeline(cdrv, paths, work, "c06")
+    infos = c03_models.run_pipeline(cdrv, paths, work, "c06")
     ran, compared = 0, 0
-    for i, (r, p, line) in enumerate(zip(picked, paths, lines)):
-        info = c03_models.parse_driver_line(line)
-        if not info or not info.get("ok"):
+    for i, (r, p, info) in enumerate(zip(picked, paths, infos)):
+        line = str(info.get("line", ""))
+        if not info.get("ok"):
             # the analyser refuses models that are not fully determined; the generator avoids them, count only
-            ctx.notes.append("generated-code run skipped for %s: %s" % (r["name"], line[:120]))
+            ctx.notes.append("generated-code run skipped for %s: %s" % (r["name"], line[:160]))
             continue
         desc, tops, conns = FG.reference_desc(r["files"])
         ref = matheval.evaluate(desc)
@@ -652,6 +652,7 @@ def run(ctx):
     recs = run_cases(ctx, drv, mdl, cases, "run")
     nviol = 0
     seen, nontriv = set(), 0
+    verdicts = []
     hist = {"files": {}, "import_levels": {}, "outcome": {}, "features": {}}
     for r in recs:
         res = judge(ctx, r, stats, mdl)
@@ -668,9 +669,26 @@ def run(ctx):
         for f in ("units_name_clash", "suffixed_units_names", "base_units_clash", "ids_on_imported", "import_below_placeholder"):
             if facts.get(f):
                 hist["features"][f] = hist["features"].get(f, 0) + 1
+        if res:
+            verdicts.append((r, res))
+    # cases that fail: is the implementation the code as it was before the C06 fix commits (fixes/C06-*.diff)?
+    if verdicts:
+        root = os.path.join(ctx.workdir, "run")
+        old = run_sharded(mdl, ["0000000 %s" % r["cpp"].get("X", "") for r, _ in verdicts], root, "ml_unfixed")
+        for (r, res), l in zip(verdicts, old):
+            um = fields(l)
+            F = cpp_outcome(r["cpp"])
+            ud = um.get("D", "")
+            if (F == "model" and ud == r["cpp"].get("D")) or (F != "model" and ud in ("FCRASH", "FFUEL", "FUNMODELLED")):
+                r["unfixed_note"] = ("the implementation behaves as the model of the code BEFORE the C06 fix commits "
+                                     "(fixes/C06-*.diff are not in this tree)")
+    for r, res in verdicts:
+        facts = r.get("facts") or {}
         for sev, fid, text in res:
             if sev == "violation" and nviol < 8:
                 nviol += 1
+                if r.get("unfixed_note"):
+                    text += " [" + r["unfixed_note"] + "]"
                 ctx.violation("%s: %s" % (r["name"], text), "c06_%s.json" % r["name"],
                               {"case": r["name"], "files": r["files"], "what": text, "facts": facts,
                                "implementation": {k: v for k, v in r["cpp"].items() if k not in ("X", "O")},
